@@ -86,6 +86,9 @@ TraceCli ==
                  \cup Cl(e.bytes_equal_library_build, "C06.cli_output_complete")
                  \* the reference is the library build of the settings in effect for this format (its override block applied)
                  \cup Cl(e.bytes_equal_library_build, "C13.cli_builds_effective_settings_of_packaged_format")
+                 \* ... and of the literal values: the file the tool read spells a version, a relation and an opted-in content
+                 \* source as references to the tool's environment
+                 \cup Cl(e.bytes_equal_library_build, "C16.cli_expands_references_from_its_environment")
                  \cup Cl(files = 1, "C15.cli_no_stray_files")
                  \cup Cl(e.created_line # "", "C15.cli_reports_created_package"))
             \* spec -> code: the terminal state TLC computed for this argv (Cli.tla, exported behaviours) vs the projection of the real run
